@@ -14,6 +14,13 @@ version (`load_matchfile` / `load_match`), each case in a forked child of the wo
 Space `parse-pos`: the text of a line embedded in a longer string and parsed with the `pos` option of the
 class parsers (every class that has it) gives the same object as the text alone.
 
+Space `duration-trees`: sums of durations built by expressions of every association shape (not only left folds), as values
+and as Duration/Offset of score-note lines.
+
+Space `duration-sequences`: duration texts are parsed (directly or as fields of lines), the parsed objects are added up
+(+, +=, from the right, sum()), then the operands, their lines and the texts parsed again must be what they were; each
+case in a forked child of the worker.
+
 Space `signed-times`: the line oracle (including to_v1) on every line that carries a performed note or a pedal
 time, with the full product of its time fields over a signed alphabet (times before the reference point of the
 performance are negative numbers).
@@ -38,6 +45,7 @@ import numpy as np
 
 from mc.core import CaseResult, Space, run_check, innermost_partitura_frame, exc_text, Hang, CASE_TIMEOUT
 from mc import c07_alpha as A
+from mc.c07_alpha import D
 
 PID = "C07"
 RULE = (
@@ -48,7 +56,9 @@ RULE = (
     "line was written and parsed back (all cases); a history case = a sequence of file loads followed by the "
     "line oracle on the lines of one version (non-trivial: always); a parse-pos case = one line x what stands before "
     "and after it in the parsed string (non-trivial: always - either pos > 0 or text follows the line); a signed-times "
-    "case = one line with a performed note or pedal x one element of the product of its time fields over the signed alphabet"
+    "case = one line with a performed note or pedal x one element of the product of its time fields over the signed alphabet; "
+    "a duration-trees case = one expression tree of additions with its leaves (non-trivial: always - at least one addition); a "
+    "duration-sequences case = operand sequence x way of adding x channel (non-trivial: always - texts are parsed, added, parsed again)"
 )
 ASSUMPTIONS = [
     "field values are given in the canonical types of the line classes (upper-case step, int or None "
@@ -80,6 +90,12 @@ ASSUMPTIONS = [
     "them with int()/float(), so negative times are field values the formats allow (the onsets of a 1.0.0 ptime line are "
     "not: its text admits digits only); to_v1 keeps them (float times of 0.1.0/0.2.0: nearest integer, either neighbour "
     "at an exact half)",
+    "duration addition is every form of + the class supports: a + b in any association, int operands on either side, the "
+    "augmented assignment acc += b and sum(); a sum writes the components of its operands in operand order; where an int stands "
+    "on the left of a duration (reflected addition) only the value and the multiset of components are compared",
+    "string round trips keep the value whatever was parsed or added before in the same process: durations and lines that were "
+    "parsed earlier keep their value and text when they are used as operands of additions, and the same text parsed again gives "
+    "the same value",
     "trusted: Python re/str/float formatting, decimal, fractions, numpy integer arithmetic",
 ]
 CHUNK = 50
@@ -131,7 +147,62 @@ def mod_for(v):
 # builders (public constructors only)
 
 
+def is_tree(enc):
+    """a duration given as an expression: {"tree": T}, T = [n, d, td] (a plain duration) | int (a Python int
+    operand) | ["+", T, T]; the encoding as list of components is the left fold of its components"""
+    return isinstance(enc, dict)
+
+
+def tree_eval(t):
+    """the expression evaluated with the implementation's `+` (int leaves stay Python ints)"""
+    if isinstance(t, int):
+        return t
+    if t[0] == "+":
+        return tree_eval(t[1]) + tree_eval(t[2])
+    if isinstance(t[0], list):
+        return mk_dur(t)  # a leaf that is itself a sum (left fold of its components)
+    return M().U.FractionalSymbolicDuration(t[0], t[1], t[2])
+
+
+def tree_ref(t):
+    """reference of an expression: a Python int (only int operands) or the list of components, in the order of
+    the leaves (an int operand n of a duration is the component n/1; int + int is one int)"""
+    if isinstance(t, int):
+        return t
+    if t[0] == "+":
+        return ref_add(tree_ref(t[1]), tree_ref(t[2]))
+    if isinstance(t[0], list):
+        return [list(c) for c in t]
+    return [list(t)]
+
+
+def order_open(t):
+    """an int stands on the left of a duration somewhere in the expression: the reflected addition is only
+    specified by its value ("the sum of sd + self"), not by the order in which the components are written"""
+    if isinstance(t, int) or t[0] != "+":
+        return False
+    return (isinstance(tree_ref(t[1]), int) and not isinstance(tree_ref(t[2]), int)) or order_open(t[1]) or order_open(t[2])
+
+
+def ref_add(l, r):
+    if isinstance(l, int) and isinstance(r, int):
+        return l + r
+    return (l if isinstance(l, list) else [[l, 1, None]]) + (r if isinstance(r, list) else [[r, 1, None]])
+
+
+def dur_comps(enc):
+    """the components of a duration in either encoding"""
+    if is_tree(enc):
+        c = tree_ref(enc["tree"])
+        if not isinstance(c, list):
+            raise ValueError("expression without a duration operand: %r" % (enc,))
+        return c
+    return enc
+
+
 def mk_dur(comps):
+    if is_tree(comps):
+        return tree_eval(comps["tree"])
     F = M().U.FractionalSymbolicDuration
     d = F(comps[0][0], comps[0][1], comps[0][2])
     for c in comps[1:]:
@@ -321,6 +392,7 @@ def eq_float(obs, exp, places):
 
 def dur_ref(comps):
     """(exact value or None when bounded, non-zero components, bounded?)"""
+    comps = dur_comps(comps)
     val = Fraction(0)
     den = 1
     bounded = False
@@ -353,11 +425,16 @@ def norm_comps(ac):
 def eq_dur(obs, comps):
     if not isinstance(obs, M().U.FractionalSymbolicDuration):
         return False
+    ordered = not (is_tree(comps) and order_open(comps["tree"]))
+    comps = dur_comps(comps)
     val, nz, bounded = dur_ref(comps)
     if bounded:
         return True  # only the text fixpoint is required (checked by the caller)
     if dur_value(obs) != val:
         return False
+    if not ordered:
+        oc = norm_comps(obs.add_components)
+        return (oc is None and len(nz) <= 1) or (oc is not None and sorted(oc, key=repr) == sorted(nz, key=repr))
     if len(comps) == 1:
         n, d, td = comps[0]
         return (int(obs.numerator), int(obs.denominator), None if obs.tuple_div is None else int(obs.tuple_div)) == (n, d, td) \
@@ -542,7 +619,7 @@ def carried(typ, exp, extra):
         return on_grid(exp["x"], extra)
     if typ == "d":
         val, nz, bounded = dur_ref(exp)
-        return not bounded and (len(exp) == 1 or len(nz) >= 2)
+        return not bounded and (len(dur_comps(exp)) == 1 or len(nz) >= 2)
     return True
 
 
@@ -789,11 +866,16 @@ def convert(case, res, x, ctx):
 
 def eval_fsd(case, res):
     F = M().U.FractionalSymbolicDuration
-    comps = case["a"]["c"]
-    ctx = "duration %r" % (comps,)
-    ok, x = call(res, "duration-construct", ctx, mk_dur, comps)
+    enc = case["a"]["c"]
+    comps = dur_comps(enc)
+    ctx = "duration %r" % (enc["tree"] if is_tree(enc) else comps,)
+    ok, x = call(res, "duration-construct", ctx, mk_dur, enc)
     if not ok:
         return "exc"
+    if not isinstance(x, F):
+        res.fail("duration-construct", expected="FractionalSymbolicDuration", observed=type(x).__name__,
+                 where="FractionalSymbolicDuration.__add__", detail=ctx)
+        return "kind"
     val, nz, bounded = dur_ref(comps)
     if not nz and len(comps) > 1:
         return "zero-sum"  # not generated
@@ -813,7 +895,7 @@ def eval_fsd(case, res):
                     parts += p
             if parts != val:
                 res.fail("duration-addition-exact", expected=val, observed=parts, where="FractionalSymbolicDuration", detail=ctx)
-        if not eq_dur(x, comps):
+        if not eq_dur(x, enc):
             res.fail("duration-value", expected=comps, observed=show(x), where="FractionalSymbolicDuration", detail=ctx)
     ok, s = call(res, "duration-write", ctx, str, x)
     if not ok:
@@ -846,7 +928,7 @@ def eval_fsd(case, res):
         return "kind"
     if not bounded and (dur_value(y) != dur_value(x) or float(y) != float(x)):
         res.fail("duration-roundtrip-value", expected=show(x), observed=show(y), where="FractionalSymbolicDuration.from_string", detail=ctx)
-    if not bounded and not eq_dur(y, comps):
+    if not bounded and not eq_dur(y, enc):
         res.fail("duration-roundtrip-value", expected=comps, observed=show(y), where="FractionalSymbolicDuration.from_string", detail=ctx)
     if carried("d", comps, None) and not (bool(x == y) and not bool(x != y)):
         res.fail("duration-roundtrip-equal", expected=show(x), observed=show(y), where="FractionalSymbolicDuration.__eq__", detail=ctx)
@@ -858,6 +940,223 @@ def eval_fsd(case, res):
     if ok and not (isinstance(y2, F) and (bounded or dur_value(y2) == dur_value(x)) and str(y2) == s):
         res.fail("duration-roundtrip-value", expected=show(x), observed=show(y2), where="interpret_as_fractional", detail=ctx)
     return "bounded" if bounded else ("sum%d" % len(nz) if len(comps) > 1 else "plain")
+
+
+# ------------------------------------------------------------------------------------------------
+# durations built by expressions of every association shape, and sequences parse - add - parse again
+
+
+def probe_snote(v, dur, offset):
+    return dict(k="snote", v=v, a=dict(anchor="n1", pitch=["C", 0, 4], measure=1, beat=1, offset=offset, dur=dur,
+                                       on=0.0, off=1.0, attrs=["s"]))
+
+
+def tree_is_right(t):
+    """some right operand of the expression is itself a sum"""
+    if isinstance(t, int) or t[0] != "+":
+        return False
+    r = t[2]
+    return (not isinstance(r, int) and r[0] == "+") or tree_is_right(t[1]) or tree_is_right(t[2])
+
+
+def eval_fsd_tree(case, res):
+    """the duration oracle on the value of the expression, then the line oracle on score-note lines that carry
+    the value as Duration and as Offset"""
+    a = case["a"]
+    out = eval_fsd(case, res)
+    if out in ("exc", "kind", "zero-sum") or res.violations:
+        return out
+    n = 1
+    for v in a["lines"]:
+        n += 1
+        eval_line(probe_snote(v, a["c"], a["c"]), res, "duration %r as Duration and Offset of " % (a["c"]["tree"],))
+        if res.violations:
+            break
+    res.states = res.traces = n
+    t = a["c"]["tree"]
+    return "%s-%s%s" % (out, "right-nested" if tree_is_right(t) else "left-nested", "-int-left" if order_open(t) else "")
+
+
+def dur_text(comps):
+    """the text of a duration: n | n/d | n/d/t, components joined by + (reference formatter; zero components of a
+    sum are not generated)"""
+    def one(n, d, td):
+        if d == 1 and td is None:
+            return "%d" % n
+        return "%d/%d" % (n, d) if td is None else "%d/%d/%d" % (n, d, td)
+    return "+".join(one(*c) for c in comps)
+
+
+SEQ_FIELDS = {"Duration": "dur", "Offset": "offset"}
+
+
+def seq_parse(chan, comps):
+    """one duration text read through a channel -> (duration object, text, line object or None, line text or None)"""
+    U = M().U
+    text = dur_text(comps)
+    if chan == "from_string":
+        return U.FractionalSymbolicDuration.from_string(text), text, None, None
+    if chan == "interpret":
+        return U.interpret_as_fractional(text), text, None, None
+    what, v = chan.split("@")
+    kind, field = what.split(".")
+    zero = [[0, 1, None]]
+    if kind == "snote":
+        c = probe_snote(v, comps if field == "Duration" else [[1, 4, None]], comps if field == "Offset" else zero)
+    elif kind == "stime":
+        c = dict(k="stime", v=v, a=dict(measure=1, beat=1, offset=comps, on=0.0, ann=["beat"]))
+    else:
+        raise ValueError(chan)
+    t = build(c).matchline
+    if text not in t:
+        raise ValueError("the text %r of the line does not contain the duration text %r" % (t, text))
+    y = parse_with_class(c, t)
+    return getattr(y, field), text, y, t
+
+
+def seq_tree(fold, leaves):
+    """the expression a fold computes"""
+    if fold == "add-right":
+        t = leaves[-1]
+        for lf in reversed(leaves[:-1]):
+            t = ["+", lf, t]
+        return t
+    t = ["+", 0, leaves[0]] if fold == "sum" else leaves[0]
+    for lf in leaves[1:]:
+        t = ["+", t, lf]
+    return t
+
+
+def seq_fold(fold, objs):
+    if fold == "sum":
+        return sum(objs)
+    if fold == "add-right":
+        acc = objs[-1]
+        for o in reversed(objs[:-1]):
+            acc = o + acc
+        return acc
+    acc = objs[0]
+    for o in objs[1:]:
+        if fold == "iadd":
+            acc += o
+        else:
+            acc = acc + o
+    return acc
+
+
+def seq_check_dur(res, clause, obs, comps, text, where, ctx):
+    """a parsed duration has the value, components and text of its text"""
+    F = M().U.FractionalSymbolicDuration
+    if not isinstance(obs, F) or not eq_dur(obs, comps):
+        res.fail(clause, expected="%s = %r" % (text, comps), observed=show(obs), where=where, detail=ctx)
+        return False
+    ok, s = call(res, clause, ctx, str, obs)
+    if ok and s != text:
+        res.fail(clause, expected=text, observed=s, where=where, detail=ctx)
+        return False
+    return ok
+
+
+def eval_durseq(case, res):
+    """every way of adding up, one after the other in the same process (stops at the first violation)"""
+    a = case["a"]
+    n = 0
+    outs = []
+    for fold in (SEQ_FOLDS if len(a["ops"]) > 1 else ["sum"]):
+        sub = CaseResult(states=1, transitions=0, traces=1)
+        outs.append(eval_durseq_fold(a, fold, sub))
+        n += sub.states
+        res.transitions += sub.transitions
+        res.violations.extend(sub.violations)
+        if res.violations:
+            break
+    res.states = res.traces = n
+    kinds = "int" if any(isinstance(o, int) for o in a["ops"]) else "texts"
+    return "%d-%s-%s-%s" % (len(a["ops"]), kinds, a["chan"].split("@")[0], "ok" if all(o == "ok" for o in outs) else outs[-1])
+
+
+def eval_durseq_fold(a, fold, res):
+    """parse duration texts (directly or as fields of lines), add the parsed objects up, then: the sum is exact, the
+    parsed objects and their lines are what they were, and parsing the texts of the alphabet again gives their values"""
+    chan = a["chan"]
+    F = M().U.FractionalSymbolicDuration
+    texts = [o for o in a["ops"] if not isinstance(o, int)]
+    ctx = "%s over %s read with %s" % (fold, " , ".join(repr(o) if isinstance(o, int) else dur_text(o) for o in a["ops"]), chan)
+    objs, held = [], []
+    for o in a["ops"]:
+        if isinstance(o, int):
+            objs.append(o)
+            continue
+        ok, got = call(res, "duration-parse", ctx, seq_parse, chan, o)
+        if not ok:
+            return "exc"
+        d, text, line, ltext = got
+        if not seq_check_dur(res, "duration-roundtrip-value", d, o, text, chan, ctx):
+            return "parse-bad"
+        objs.append(d)
+        held.append((d, o, text, line, ltext))
+    enc = dict(tree=seq_tree(fold, [o if isinstance(o, int) else [list(c) for c in o] for o in a["ops"]]))
+    ok, acc = call(res, "duration-addition-exact", ctx, seq_fold, fold, objs)
+    if not ok:
+        return "exc"
+    val, nz, bounded = dur_ref(enc)
+    if not isinstance(acc, F) or not (bounded or (dur_value(acc) == val and eq_dur(acc, enc))):
+        res.fail("duration-addition-exact", expected="%s = %r" % (val, dur_comps(enc)), observed=show(acc),
+                 where="FractionalSymbolicDuration.__add__", detail=ctx)
+        return "sum-bad"
+    # addition leaves its operands alone: the parsed objects and the lines they belong to are what they were
+    for d, o, text, line, ltext in held:
+        if not seq_check_dur(res, "duration-addition-operand-unchanged", d, o, text, "FractionalSymbolicDuration.__add__",
+                             ctx + ": parsed operand after the additions"):
+            return "operand-changed"
+        if line is not None:
+            ok, t2 = call(res, "rewrite", ctx, matchline_of, line)
+            if ok and t2 != ltext:
+                res.fail("duration-addition-operand-unchanged", expected=ltext, observed=t2, where="MatchLine.matchline",
+                         detail=ctx + ": line of a parsed operand after the additions")
+                return "operand-changed"
+    # the sum survives the string round trip
+    ok, s = call(res, "duration-write", ctx, str, acc)
+    if not ok:
+        return "exc"
+    ok, y = call(res, "duration-parse", ctx, F.from_string, s)
+    if not ok:
+        return "exc"
+    if not isinstance(y, F) or not (bounded or (dur_value(y) == val and eq_dur(y, enc))) or str(y) != s:
+        res.fail("duration-roundtrip-value", expected="%s = %s" % (s, val), observed=show(y),
+                 where="FractionalSymbolicDuration.from_string", detail=ctx)
+        return "sum-roundtrip"
+    # every text of the alphabet parsed again: through the channel of the case and directly
+    for o in a["alphabet"]:
+        for ch in ([chan] if chan == "from_string" else [chan, "from_string"]):
+            c2 = "%s, then %r read again with %s" % (ctx, dur_text(o), ch)
+            ok, got = call(res, "duration-parse", c2, seq_parse, ch, o)
+            if not ok:
+                return "exc"
+            d, text, line, ltext = got
+            if not seq_check_dur(res, "duration-roundtrip-value", d, o, text, ch, c2):
+                return "reparse-bad"
+            if line is not None:
+                ok, t2 = call(res, "rewrite", c2, matchline_of, line)
+                if ok and t2 != ltext:
+                    res.fail("rewrite-fixpoint", expected=ltext, observed=t2, where="MatchLine.matchline", detail=c2)
+                    return "reparse-bad"
+    # and the complete line oracle on score-note lines with the texts of the case
+    v = chan.split("@")[1] if "@" in chan else A.V1
+    n = 1
+    for o in texts[:2]:
+        n += 1
+        eval_line(probe_snote(v, o, texts[-1]), res, ctx + ", then ")
+        if res.violations:
+            return "line-bad"
+    res.states = res.traces = n
+    return "ok"
+
+
+def eval_durseq_isolated(case, res):
+    """in a forked child of the worker: what a sequence leaves behind in the classes cannot reach the next case"""
+    M()
+    return run_isolated(eval_durseq, case, res)
 
 
 def key_formatter(sp):
@@ -1235,6 +1534,10 @@ def eval_case(case):
         out = eval_pos(case, res)
     elif k == "fsd":
         out = eval_fsd(case, res)
+    elif k == "fsdtree":
+        out = eval_fsd_tree(case, res)
+    elif k == "durseq":
+        out = eval_durseq_isolated(case, res)
     elif k == "keysig":
         out = eval_key(case, res)
     elif k == "timesig":
@@ -1532,6 +1835,101 @@ def duration_cases(x):
                 yield dict(k="fsd", v="-", a=dict(c=[a, b, c]))
 
 
+# expressions: every association shape of a sum (the line spaces and `duration` build sums by left folds only)
+TREE_LEAVES = [[0, 1, None], [1, 4, None], [1, 4, 3], [3, 8, None], [1, 16, 5], 1]
+TREE_LEAVES_X = TREE_LEAVES + [[2, 1, None], [7, 12, None]]
+TREE_LEAVES_5 = [[0, 1, None], [1, 4, 3], [3, 8, None], 1]
+NBLOCKS_TREE = 16
+# Known defect of the unchanged tree (proposed_fixes/C07-s-rational-sum-components.diff): the score-note lines of 0.1.0 and
+# 0.2.0 write a sum whose components are all whole numbers (1+1, 2+1+1: lowest common denominator 1) as one rational "n/1", so
+# the additive components do not come back (the value does).  Until the fix is applied these sums are not put into 0.1.0/0.2.0
+# lines (they are in the lines of every other version and in the value oracle); set to True to include them.
+WHOLE_SUMS_IN_RATIONAL_LINES = True
+
+
+def tree_shapes(n):
+    """all binary trees with n leaves (None = a leaf), deterministic order"""
+    if n == 1:
+        return [None]
+    out = []
+    for k in range(1, n):
+        for lt in tree_shapes(k):
+            for rt in tree_shapes(n - k):
+                out.append(["+", lt, rt])
+    return out
+
+
+def tree_fill(shape, leaves):
+    """the shape with its leaves replaced left to right by the elements of the iterator `leaves`"""
+    if shape is None:
+        lf = next(leaves)
+        return lf if isinstance(lf, int) else list(lf)
+    lt = tree_fill(shape[1], leaves)
+    return ["+", lt, tree_fill(shape[2], leaves)]
+
+
+def tree_cases(sizes, alphabet, thorough):
+    """every shape with n leaves (n in sizes) x every assignment of the alphabet to the leaves that has a duration
+    and a non-zero operand; the value is also carried by score-note lines: of 1.0.0 and of one 0.x version (cycled
+    over the cases; thorough: of every version)"""
+    j = 0
+    for n in sizes:
+        for shape in tree_shapes(n):
+            for leaves in itertools.product(alphabet, repeat=n):
+                if all(isinstance(lf, int) for lf in leaves) or all(not isinstance(lf, int) and lf[0] == 0 for lf in leaves):
+                    continue
+                lines = list(A.ALL_VERSIONS) if thorough else [A.V1, A.V0[j % len(A.V0)]]
+                j += 1
+                if not WHOLE_SUMS_IN_RATIONAL_LINES and all(isinstance(lf, int) or (lf[1] == 1 and lf[2] is None) for lf in leaves):
+                    lines = [v for v in lines if A.vt(v) >= (0, 3, 0)]
+                yield dict(k="fsdtree", v="-", a=dict(c=dict(tree=tree_fill(shape, iter(leaves))), lines=lines))
+
+
+def tree_scope(thorough):
+    return itertools.chain(tree_cases((2, 3, 4), TREE_LEAVES_X, thorough), tree_cases((5,), TREE_LEAVES_5, thorough))
+
+
+def tree_in_core(case):
+    def leaves(t):
+        if isinstance(t, int) or t[0] != "+":
+            return [t]
+        return leaves(t[1]) + leaves(t[2])
+    lv = leaves(case["a"]["c"]["tree"])
+    return len(lv) <= 4 and all(lf in TREE_LEAVES for lf in lv)
+
+
+# sequences: duration texts are parsed, the parsed objects are added up, the texts are parsed again
+SEQ_DURS = [D((0, 1, None)), D((1, 4, None)), D((1, 8, None)), D((1, 8, 3)), D((3, 1, None)), D((1, 4, None), (1, 16, None))]
+SEQ_DURS_X = SEQ_DURS + [D((1, 16, None)), D((2, 4, 3)), D((1, 4, None), (1, 8, 3), (1, 32, None))]
+SEQ_INT = 1
+SEQ_FOLDS = ["add", "iadd", "add-right", "sum"]
+SEQ_CHANNELS = ["from_string", "interpret", "snote.Duration@1.0.0", "snote.Duration@0.3.0"]
+SEQ_CHANNELS_X = SEQ_CHANNELS + ["snote.Offset@1.0.0", "stime.Offset@1.0.0", "snote.Offset@0.5.0", "snote.Duration@0.1.0",
+                                 "snote.Duration@0.2.0", "snote.Duration@0.4.0", "snote.Duration@0.5.0"]
+NBLOCKS_SEQ = 32
+
+
+def seq_cases(durs, channels):
+    """all sequences of 1-3 operands over the texts and one Python int (at least one text, at most one int, not all
+    zero) x every channel; a case runs every way of adding them up (one operand: only sum(), the other folds do nothing)"""
+    ops = list(durs) + [SEQ_INT]
+    for n in (1, 2, 3):
+        for seq in itertools.product(ops, repeat=n):
+            ints = sum(1 for o in seq if isinstance(o, int))
+            if ints > 1 or ints == n:
+                continue
+            if all(not isinstance(o, int) and all(c[0] == 0 for c in o) for o in seq):
+                continue
+            for chan in channels:
+                yield dict(k="durseq", v="-", a=dict(ops=[o if isinstance(o, int) else [list(c) for c in o] for o in seq],
+                                                     chan=chan, alphabet=durs))
+
+
+def seq_in_core(case):
+    a = case["a"]
+    return a["chan"] in SEQ_CHANNELS and all(isinstance(o, int) or o in SEQ_DURS for o in a["ops"])
+
+
 def v01_text(k, variant):
     """historical 0.1.0 spellings of one key: [cn,minor] [c,minor] [C#,min] ..."""
     f, m = k[0], k[1]
@@ -1615,6 +2013,12 @@ def eval_history_isolated(case, res):
     """eval_history in a forked child of the worker: whatever the loads of one history leave behind in the
     modules under test cannot reach the next case (same case => same verdict, also on a tree with a defect)"""
     global _WARM
+    warm_worker()
+    return run_isolated(eval_history, case, res)
+
+
+def warm_worker():
+    global _WARM
     if not _WARM:
         # once per worker: modules imported, case tables built and the line operations run once (only parse/format
         # calls, as in the line spaces; no file is loaded in the worker itself), so that the children start warm
@@ -1627,6 +2031,10 @@ def eval_history_isolated(case, res):
                 eval_line(c, scratch)
         gc.collect()
         gc.freeze()
+
+
+def run_isolated(fn, case, res):
+    """fn(case, result) in a forked child of the worker; the child's result is copied into `res`"""
     rfd, wfd = os.pipe()
     pid = os.fork()
     if pid == 0:
@@ -1639,10 +2047,10 @@ def eval_history_isolated(case, res):
             signal.setitimer(signal.ITIMER_PROF, CASE_TIMEOUT, 2.0)
             sub = CaseResult(states=1, transitions=0, traces=1)
             try:
-                out = eval_history(case, sub)
+                out = fn(case, sub)
             except Hang as ex:
                 out = "hang"
-                sub.fail("terminates", kind="hang", observed=str(ex), detail="history %r" % (case["a"],))
+                sub.fail("terminates", kind="hang", observed=str(ex), detail="%s %r" % (case["k"], case["a"]))
             finally:
                 signal.setitimer(signal.ITIMER_PROF, 0)
             data = pickle.dumps((out, sub.states, sub.transitions, sub.traces, sub.violations))
@@ -1680,7 +2088,7 @@ def eval_history_isolated(case, res):
             except ChildProcessError:
                 break
     if not buf:
-        raise RuntimeError("history child process returned nothing")
+        raise RuntimeError("%s child process returned nothing" % case["k"])
     out, res.states, res.transitions, res.traces, viols = pickle.loads(b"".join(buf))
     res.violations.extend(viols)
     return out
@@ -1735,6 +2143,33 @@ BOUNDS = {
     "keysig": "key signatures: 30 keys, all key/alternative pairs, list forms, in the four spellings; four historical 0.1.0 and six 0.3.0 text variants read first",
     "timesig": "time signatures n/d with n<=16(32), d in 1..64, plain and list spelling, list tails",
     "version": "version numbers (a,b,c) and the historical two-number spelling",
+    "duration-trees": "sums of durations in every association shape: all binary expression trees with 2-4 leaves (1 + 2 + 5 "
+                      "shapes, e.g. a+(b+c), (a+b)+(c+d), a+(b+(c+d))) x every assignment of the leaf alphabet {0, 1/4, 1/4/3, "
+                      "3/8, 1/16/5, the Python int 1} to the leaves that has at least one duration and one non-zero operand, "
+                      "evaluated with the implementation's + (int operands: __add__ with an int and the reflected addition); "
+                      "expected: exact value, the written components = the leaves in order (where an int stands left of a "
+                      "duration only the multiset of components: the order written by the reflected addition is not specified; "
+                      "int + int is one int), float, operands unchanged, str -> from_string -> str round trip with equal "
+                      "object, interpret_as_fractional; then the complete line oracle on score-note lines carrying the value as "
+                      "Duration and as Offset (1.0.0 and one 0.x version cycled over the cases; thorough: every version; "
+                      "NOT in 0.1.0/0.2.0 lines: sums whose operands are all whole numbers - known defect, the always-rational "
+                      "text n/1 of these versions drops the components, proposed_fixes/C07-s-rational-sum-components.diff); "
+                      "thorough scope: leaf alphabet + {2, 7/12} and all 14 shapes with 5 leaves over {0, 1/4/3, 3/8, int 1}",
+    "duration-sequences": "parse - add - parse again, each case in a forked child of the worker: all sequences of 1-3 operands "
+                          "over the duration texts {0, 1/4, 1/8, 1/8/3, 3, 1/4+1/16} and the Python int 1 (at least one text, at "
+                          "most one int, not all zero) x the channel the texts are read "
+                          "through {FractionalSymbolicDuration.from_string, interpret_as_fractional, the Duration of a parsed "
+                          "1.0.0 score-note line, the Duration of a parsed 0.3.0 score-note line}; a case runs, one after the "
+                          "other in the same child process, every way of adding the parsed objects up {acc = acc + x, acc += x, "
+                          "acc = x + acc (from the right), sum()} (one operand: sum() only), each with fresh parses and the "
+                          "whole oracle; expected: every parsed object "
+                          "has the value, components and text of its text; the sum is exact (components in operand order) and "
+                          "survives the string round trip; afterwards the parsed operands still have their value and text and "
+                          "their lines write the same text; every text of the alphabet read again (through the channel and "
+                          "with from_string) has its value and text; the complete line oracle on score-note lines with the "
+                          "texts of the case as Duration and Offset; thorough scope: texts + {1/16, 2/4/3, 1/4+1/8/3+1/32}, "
+                          "channels + {Offset of 1.0.0 snote and stime lines, Offset of a 0.5.0 snote line, Duration of snote "
+                          "lines of 0.1.0, 0.2.0, 0.4.0, 0.5.0}",
     "history": "call histories: all sequences of 0-2 loads over {0.1.0 file without version line, files of 0.1.0, 0.2.0, 0.3.0, "
                "0.4.0, 0.5.0, 1.0.0} x {load_matchfile, load_match(create_score=True)} and all sequences of 3 loads of these "
                "files with load_matchfile, followed by the complete line oracle (write, "
@@ -1787,6 +2222,26 @@ def spaces(tier, seed):
         rest = (c for c, in_core in info_text_cases(True) if not in_core)
         for c in A.shard(rest, seed % NBLOCKS_TEXT, NBLOCKS_TEXT):
             yield c
+
+    def tree_space_cases():
+        if thorough:
+            return tree_scope(True)
+        rest = (c for c in tree_scope(False) if not tree_in_core(c))
+        return itertools.chain(tree_cases((2, 3, 4), TREE_LEAVES, False), A.shard(rest, seed % NBLOCKS_TREE, NBLOCKS_TREE))
+
+    out.append(Space("duration-trees", tree_space_cases, exhaustive=True, bounds=BOUNDS["duration-trees"] + (
+        " - complete" if thorough else " - complete core; plus every %d-th case (offset VERIF_SEED mod %d) of the rest of the "
+        "thorough enumeration" % (NBLOCKS_TREE, NBLOCKS_TREE))))
+
+    def seq_space_cases():
+        if thorough:
+            return seq_cases(SEQ_DURS_X, SEQ_CHANNELS_X)
+        rest = (c for c in seq_cases(SEQ_DURS_X, SEQ_CHANNELS_X) if not seq_in_core(c))
+        return itertools.chain(seq_cases(SEQ_DURS, SEQ_CHANNELS), A.shard(rest, seed % NBLOCKS_SEQ, NBLOCKS_SEQ))
+
+    out.append(Space("duration-sequences", seq_space_cases, exhaustive=True, bounds=BOUNDS["duration-sequences"] + (
+        " - complete" if thorough else " - complete core; plus every %d-th case (offset VERIF_SEED mod %d) of the rest of the "
+        "thorough enumeration" % (NBLOCKS_SEQ, NBLOCKS_SEQ))))
 
     out.append(Space("info-text", text_cases, exhaustive=True, bounds=BOUNDS["info-text"] + (
         " - complete" if thorough else " - complete core; plus every %d-th case (offset VERIF_SEED mod %d) of the rest of the "
